@@ -166,8 +166,11 @@ var c07Classes = []string{"zeros", "period-2", "counter", "lcg-random", "bitpack
 // bytes, 15/16 literal-length escape, 255/256 length bytes), around gpfile's 4 KiB
 // bufio and 8 KiB scratch sizes, the 64 KiB lz4 window, the 128 KiB zstd block,
 // and "several hundred KiB".
-var c07LengthsQuick = []int{0, 1, 3, 8, 13, 15, 16, 64, 255, 256, 4096, 4097, 8192, 8193, 65535, 65536, 65537}
-var c07LengthsThorough = []int{0, 1, 2, 3, 7, 8, 12, 13, 15, 16, 63, 64, 65, 255, 256, 4095, 4096, 4097, 8191, 8192, 8193, 65535, 65536, 65537, 131071, 131072, 131073, 300000}
+var c07LengthsQuick = []int{0, 1, 3, 8, 13, 15, 16, 64, 255, 256, 4096, 4097, 8192, 8193, 65535, 65536, 65537, 1048577}
+var c07LengthsThorough = []int{0, 1, 2, 3, 7, 8, 12, 13, 15, 16, 63, 64, 65, 255, 256, 4095, 4096, 4097, 8191, 8192, 8193, 65535, 65536, 65537, 131071, 131072, 131073, 300000, 1048576, 1048577, 2100000}
+
+// c07XL: lengths above it (beyond 1 MiB windows) are combined with two scratch buffers only.
+const c07XL = 1 << 20
 
 func c07Lengths(thorough bool) []int {
 	if thorough {
@@ -648,6 +651,11 @@ func c07RunFor(cfg string) func(x *explore.Ctx) {
 		li := x.Choose(len(lengths), "length")
 		si := x.Choose(c07NumScratches(x.Thorough()), "scratch(len,cap)")
 		reuse := x.Choose(2, "encoder(fresh,used-before)")
+		if lengths[li] > c07XL && si != 0 && si != 5 {
+			// inputs beyond the libraries' window sizes: only with a nil scratch buffer and with gpfile's
+			x.Obs("xl-skipped")
+			return
+		}
 
 		var res c07Result
 		if os.Getenv("VERIF_C07_INPROC") != "" {
@@ -714,7 +722,7 @@ func init() {
 	for _, cfg := range []string{"cgo", "nocgo", "noliblz4", "nolibzstd"} {
 		register("C07."+cfg, &explore.Scenario{
 			ID: "C07", Name: "compress/decompress round trip, every encoder x level x scratch buffer, " + cfg + " build", Level: "exploration",
-			Rule:  "runs inside the " + cfg + " worker build (self-checked against build info and the linked implementations). cases = (encoder,level) x 8 content classes (zeros, period-2, counter, LCG-random, bit-packed-like, half random/half zero, skewed 4-symbol, far-repeat); (encoder,level) = null, lz4 0..12, zstd 0..19 in thorough, null, lz4 {0,1,6,12}, zstd {0,1,3,6,19} in quick. per case the full product of input length (16 values 0..65537 quick, 28 values 0..300000 thorough) x caller scratch buffers (len,cap) (quick 7: nil, (0,0), (0,64), (0,bound), (8192,8192), (8192,16384) as gpfile, (1,bound+1); thorough adds (0,bound-1), (bound,bound), (bound+100,2bound+200), (0,4bound+8192); non-zero content) x encoder fresh / already used for another block (then the same object also decompresses). oracle: n returned by Compress == bytes received by a recording writer; Decompress(in sized n, out sized len(data), file-like reader) returns len(data) and out == original. non-trivial = completed round trip of a non-empty input, distinct by (length, scratch, encoder history) per case; outcomes = distinct compressed streams",
+			Rule:  "runs inside the " + cfg + " worker build (self-checked against build info and the linked implementations). cases = (encoder,level) x 8 content classes (zeros, period-2, counter, LCG-random, bit-packed-like, half random/half zero, skewed 4-symbol, far-repeat); (encoder,level) = null, lz4 0..12, zstd 0..19 in thorough, null, lz4 {0,1,6,12}, zstd {0,1,3,6,19} in quick. per case the full product of input length (17 values 0..65537 and 1048577 quick, 31 values 0..300000, 1048576, 1048577, 2100000 thorough; lengths above 1 MiB only with the nil and the gpfile scratch buffer) x caller scratch buffers (len,cap) (quick 7: nil, (0,0), (0,64), (0,bound), (8192,8192), (8192,16384) as gpfile, (1,bound+1); thorough adds (0,bound-1), (bound,bound), (bound+100,2bound+200), (0,4bound+8192); non-zero content) x encoder fresh / already used for another block (then the same object also decompresses). oracle: n returned by Compress == bytes received by a recording writer; Decompress(in sized n, out sized len(data), file-like reader) returns len(data) and out == original. non-trivial = completed round trip of a non-empty input, distinct by (length, scratch, encoder history) per case; outcomes = distinct compressed streams",
 			Cases: func(t string) int { return len(c07EncLevels(t)) * len(c07Classes) },
 			Bound: func(string) int { return 0 },
 			Run:   c07RunFor(cfg), PanicSig: "",
